@@ -1084,6 +1084,15 @@ class Prims:
                 return None
         if isinstance(obj, (GhostSet, GhostMap, Record)):
             return obj.method(ex, st, attr, args, kwargs, node, self)
+        # side-effect free methods of concrete Python containers on concrete arguments: CPython's own semantics
+        pure = {set: ("issubset", "issuperset", "union", "intersection", "difference", "isdisjoint"), frozenset: ("issubset", "issuperset", "union", "intersection", "difference", "isdisjoint"),
+                list: ("index", "count"), tuple: ("index", "count"), str: ("startswith", "endswith", "lower", "upper")}
+        for ty, names in pure.items():
+            if type(obj) is ty and attr in names and not kwargs and all(isinstance(a_, (int, str, float, bool, tuple, list, set, frozenset, type(None))) and not is_sym(a_) for a_ in args):
+                if ty in (list, tuple) and attr == "index" and not any(x is args[0] or (not is_sym(x) and not hasattr(x, "pyvc_getattr") and x == args[0]) for x in obj):
+                    ex.oblige(st, z3.BoolVal(False), ex._name("python.index.member", node), f"line {node.lineno}: .index() needs a member of the sequence (ValueError otherwise)")
+                    raise Unsupported(f".index of a non-member at line {node.lineno}")
+                return getattr(obj, attr)(*args)
         raise Unsupported(f"method {attr!r} of {type(obj).__name__} at line {node.lineno}")
 
     def rebind(self, ex, st, old, new, node):
@@ -1126,7 +1135,27 @@ class Prims:
         R("builtins.min", self.m_min)
         R("builtins.all", self.m_all)
         R("builtins.any", self.m_any)
-        R("builtins.sorted", lambda ex, st, a, k, n: a[0] if isinstance(a[0], (SSeq, Opaque)) else sorted(a[0]))  # order of a symbolic sequence is immaterial at this level
+        def m_sorted(ex, st, a, k, n):
+            if isinstance(a[0], (SSeq, Opaque)):
+                if k:
+                    raise Unsupported("sorted(key= / reverse=) of a symbolic sequence")
+                return a[0]  # order of a symbolic sequence is immaterial at this level
+            items = list(a[0])
+            key, rev = k.get("key"), k.get("reverse", False)
+            if set(k) - {"key", "reverse"} or not isinstance(rev, bool):
+                raise Unsupported("sorted with unknown keyword arguments")
+            if key is None:
+                return sorted(items, reverse=rev)
+            keys = []
+            for it in items:  # the key function is executed on every member; it must come back with one concrete value
+                outs = self.call(ex, st, key, [it], {}, n)
+                if len(outs) != 1 or is_sym(outs[0][1]) or not isinstance(outs[0][1], (int, float, str, tuple)):
+                    raise Unsupported("sorted(key=...) with a key that is not a concrete value on one path")
+                keys.append(outs[0][1])
+            order = sorted(range(len(items)), key=lambda i: keys[i], reverse=rev)  # CPython: stable
+            return [items[i] for i in order]
+
+        R("builtins.sorted", m_sorted)
         R("builtins.dict", lambda ex, st, a, k, n: dict(*a, **k))
         R("builtins.set", lambda ex, st, a, k, n: GhostSet.empty() if not a else set(a[0]))
         R("numpy.cumsum", self.m_cumsum)
